@@ -560,12 +560,21 @@ theorem T_C12_exception_recover (p c : Mesh) (hd : p.depot = c.depot) (hdel : p.
   have hs : slavePatches p = slavePatches c := by simp [slavePatches, hm]
   rw [RT_lists, RT_lists, hl, hs, hp, hi, recover_patches]
 
-/-- Recovery, unconditionally on the model (round 6e).  An `assemble()` of a mesh without vertices (a fresh or cleared
-    mesh — the only meshes `write()` and `backport()` assemble) in whose depot no identity occurs twice is left by an
-    exception at operation `b`.  Then `delete(b); clear(); assemble()` gives **the very state** — all lists, patch table
+/-- `T_C12_exception_recover` with leftovers that agree with the items of the new assembly on their *names* only (round 6g):
+    the interrupted assembly may have started from any vertex list, e.g. on top of an assembled mesh. -/
+theorem T_C12_exception_recover_names (p c : Mesh) (hd : p.depot = c.depot) (hdel : p.deleted = c.deleted)
+    (hm : p.merged = c.merged) (X X' S : List (String × List Nat))
+    (hp : p.lists.patches = addItems c.lists.patches X) (hx : X.map (·.1) = X'.map (·.1))
+    (hi : allItems (slavePatches c) (liveOps c) [] = X' ++ S) : (RT p).lists = (RT c).lists := by
+  have hl : liveOps p = liveOps c := by simp [liveOps, hd, hdel]
+  have hs : slavePatches p = slavePatches c := by simp [slavePatches, hm]
+  rw [RT_lists, RT_lists, hl, hs, hp, hi, recover_patches_names _ _ _ _ hx]
+
+/-- Recovery, unconditionally on the model (rounds 6e, 6g).  An `assemble()` of a mesh — fresh, cleared, or already
+    assembled (a direct second `assemble()`) — in whose depot no identity occurs twice is left by an exception at operation `b`.  Then `delete(b); clear(); assemble()` gives **the very state** — all lists, patch table
     with its entries and their order, flags — of the mesh that never went through the interrupted assembly; by `T_C12_delete`
     its lists and its file are those of the mesh that never held `b`. -/
-theorem T_C12_exception_recover_assembleX (m p : Mesh) (h : assembleX m = (p, true)) (hv : m.lists.verts = [])
+theorem T_C12_exception_recover_assembleX (m p : Mesh) (h : assembleX m = (p, true))
     (hn : (m.depot.map (·.id)).Nodup) :
     ∃ pre b post, m.depot = pre ++ b :: post ∧ b.id ∉ m.deleted ∧
       RT (delete p b.id) = RT (delete m b.id) ∧
@@ -580,10 +589,10 @@ theorem T_C12_exception_recover_assembleX (m p : Mesh) (h : assembleX m = (p, tr
     have := (List.nodup_append.mp hn).2.2 o.id (List.mem_map.mpr ⟨o, ho, rfl⟩) b.id (by simp)
     exact this e
   have hpat : p.lists.patches = addItems m.lists.patches
-      (allItems (slavePatches m) (pre.filter (fun o => decide (o.id ∉ m.deleted))) []) := by
+      (allItems (slavePatches m) (pre.filter (fun o => decide (o.id ∉ m.deleted))) m.lists.verts) := by
     rw [hp]
     show P.patches = _
-    rw [assembleLoopX_patches _ _ _ _ _ hpre, hv]
+    rw [assembleLoopX_patches _ _ _ _ _ hpre]
   have hfil : pre.filter (fun o => decide (o.id ∉ b.id :: m.deleted)) = pre.filter (fun o => decide (o.id ∉ m.deleted)) := by
     apply List.filter_congr
     intro o ho
@@ -599,9 +608,12 @@ theorem T_C12_exception_recover_assembleX (m p : Mesh) (h : assembleX m = (p, tr
   have hdel : p.deleted = m.deleted := by rw [hp]
   have hmer : p.merged = m.merged := by rw [hp]
   have hl : (RT (delete p b.id)).lists = (RT (delete m b.id)).lists := by
-    apply T_C12_exception_recover (delete p b.id) (delete m b.id) (by simp [delete, hdepot]) (by simp [delete, hdel])
-      (by simp [delete, hmer]) _ S
+    apply T_C12_exception_recover_names (delete p b.id) (delete m b.id) (by simp [delete, hdepot]) (by simp [delete, hdel])
+      (by simp [delete, hmer])
+      (allItems (slavePatches m) (pre.filter (fun o => decide (o.id ∉ m.deleted))) m.lists.verts)
+      (allItems (slavePatches m) (pre.filter (fun o => decide (o.id ∉ m.deleted))) []) S
     · exact hpat
+    · exact allItems_names _ _ _ _
     · show allItems (slavePatches m) (liveOps (delete m b.id)) [] = _
       rw [hlive, hS]
   have hst : RT (delete p b.id) = RT (delete m b.id) := by
@@ -866,9 +878,12 @@ example : Separated (· ∈ ([0, 1, 2, 3, 4, 5, 6, 7, 8, 9, 10, 11] : List Pt)) 
 example : vfindT ⟨1/100000000, 0, 0⟩ [] [⟨0, [], []⟩] = some 0 ∧ vfind ⟨1/100000000, 0, 0⟩ [] [⟨0, [], []⟩] = none := by
   decide +kernel
 
-/-- hypotheses of `T_C12_exception_recover_assembleX` hold for `exBad`: the assembly raises, the mesh had no vertices, the
-    three identities are different -/
-example : (assembleX (run {} exBad)).2 = true ∧ (run {} exBad).lists.verts = [] ∧
-    ((run {} exBad).depot.map (·.id)).Nodup := by decide +kernel
+/-- hypotheses of `T_C12_exception_recover_assembleX` hold for `exBad` (the assembly raises, the three identities are
+    different), and also when the interrupted assembly runs on top of an assembled mesh: two valid boxes assembled, then the
+    invalid one added and `assemble()` called again -/
+example : (assembleX (run {} exBad)).2 = true ∧ ((run {} exBad).depot.map (·.id)).Nodup ∧
+    (let m := run {} [exBad.getD 0 .assemble, exBad.getD 2 .assemble, .assemble, exBad.getD 1 .assemble]
+     (assembleX m).2 = true ∧ m.lists.verts ≠ [] ∧ (m.depot.map (·.id)).Nodup ∧
+     RT (delete (assembleX m).1 1) = RT (delete m 1)) := by decide +kernel
 
 end CBV.C12
